@@ -1746,11 +1746,11 @@ def run_semantic(ops: List[List[Any]], file_backed: bool, seed: Any, sweep: bool
         run.close()
 
 
-def oracle(ctx: C.Ctx, cov: C.Coverage) -> List[C.Failing]:
+def oracle(ctx: C.Ctx, cov: C.Coverage, only_directed: bool = False) -> List[C.Failing]:
     rng = random.Random(f"C10-oracle:{ctx.seed}")
     out: List[C.Failing] = []
     sigs = set()
-    n = ctx.budget(240, 1800)
+    n = 0 if only_directed else ctx.budget(240, 1800)
     cov.extra["oracle"] = ("semantic operation histories against the reference repository (a dict of plain objects): create / replace / delete of shells, "
                            "submodels, concept descriptions; nested elements incl. File and Blob; uploads to / downloads from / deletions of "
                            "attachments with 2 file names x 3 contents x 2 content types (different Files upload under one name); submodel "
@@ -1785,6 +1785,33 @@ def oracle(ctx: C.Ctx, cov: C.Coverage) -> List[C.Failing]:
             if f is not None and f.sig not in sigs:
                 sigs.add(f.sig)
                 out.append(f)
+    # (round 7) directed: a replacement of a qualifier that is refused (its body claims the type of ANOTHER existing qualifier) leaves
+    # the addressed qualifier where it is - a map does not change when it rejects; on the submodel and on an element, both store modes
+    for fb in (False, True):
+        srv = Server(fb)
+        try:
+            qs = [[QTYPES[0], 1], [QTYPES[1], 2]]
+            sm_ = mk_sm(IDS[0], None, 1, qs, [mk_elem("prop", "a", 1, qs)])
+            srv.send(mk_req("POST", ["submodels"], 1, 0, {"p": "obj", "o": sm_}, serialise(sm_, "json")))
+            for base in (["submodels", b64(IDS[0])], ["submodels", b64(IDS[0]), "submodel-elements", "a"]):
+                segs = base + ["qualifiers", b64(QTYPES[0])]
+                before = srv.send(mk_req("GET", segs, 1))
+                body = {"k": "qual", "t": QTYPES[1], "v": 0}
+                put = srv.send(mk_req("PUT", segs, 1, 0, {"p": "qual", "t": QTYPES[1], "v": 0}, serialise(body, "json")))
+                after = srv.send(mk_req("GET", segs, 1))
+                case = {"kind": "qualifier-rename", "mode": "file" if fb else "dict", "segs": segs}
+                f = None
+                if put[0] != "resp" or not 400 <= put[1] < 500:
+                    f = C.Failing("http:qual-put:rename-onto-existing:not-4xx", f"PUT {'/'.join(segs)} with a body of the existing type {QTYPES[1]!r} gave {put[:2]}", case, put)
+                elif after != before:
+                    f = C.Failing("http:qual-put:refused-but-changed", f"PUT {'/'.join(segs)} was refused ({put[1]}) but GET of the addressed qualifier "
+                                  f"answers {after[:2]} afterwards (before: {before[:2]})", case, after, before)
+                cov.hit("oracle-histories")
+                if f is not None and f.sig not in sigs:
+                    sigs.add(f.sig)
+                    out.append(f)
+        finally:
+            srv.close()
     # documents over the whole metamodel (round 4)
     cov.extra["oracle_documents"] = ("histories of create / replace / delete of submodels and of nested elements written as plain JSON documents over all 14 element "
                                      "classes (typed values of Property, Range, Qualifier, Extension drawn from families of Python-equal forms; lists of 10 element "
@@ -1793,7 +1820,7 @@ def oracle(ctx: C.Ctx, cov: C.Coverage) -> List[C.Failing]:
                                      "of another type (itself or inside the replaced ancestor), a changed member, a fresh document of the class; after every "
                                      "accepted write every element by its path, the element listing, the submodel and the listing of submodels are read in JSON "
                                      "AND in XML and compared with the reference document (also the 201 body)")
-    for hi in range(ctx.budget(120, 900)):
+    for hi in range(0 if only_directed else ctx.budget(120, 900)):
         ops = gen_doc_ops(rng, rng.randint(5, 10))
         fb = hi % 5 == 4
         f = run_docs(ops, fb, (ctx.seed, hi), "some", stats=cov.histogram)
@@ -2544,6 +2571,10 @@ def search(ctx: C.Ctx, disagreements, broken) -> List[C.Failing]:
 
 
 def replay(case) -> Optional[C.Failing]:
+    if case.get("kind") == "qualifier-rename":
+        fs = [f for f in oracle(C.Ctx("C10", "quick", 0, random.Random(0), 0.0, 1), C.Coverage(), only_directed=True)
+              if f.case.get("kind") == "qualifier-rename" and f.case.get("mode") == case.get("mode") and f.case.get("segs") == case.get("segs")]
+        return fs[0] if fs else None
     if case.get("kind") == "semantic":
         return run_semantic(case["ops"], case.get("mode") == "file", case.get("seed", 0), case.get("sweep", True))
     if case.get("kind") == "doc":
